@@ -27,6 +27,7 @@ EXPLANATION = (
     "'active' flag in the supersteps and the run-start/run-end helpers only constructs and emits events — it performs no state write and no "
     "control transfer; (R5) top-level shutdown is reached from a finally block; (R6) the dispatcher iterates its own copy of the processor list and no "
     "method other than the constructor modifies it, so a failing processor cannot make another one miss events. R1 also requires that an async processor method is awaited where it is called, inside its own guard (a coroutine collected for a later gather runs outside the guard and abandons its siblings when one fails)."
+    " (R8) nothing under events/ or the runners draws from or seeds the process-global random generator (observer-only code runs in different amounts with and without processors)."
 )
 NOT_DECIDED = (
     "That a processor which mutates objects reachable from an event (e.g. a list-valued decision) cannot influence the run; timing effects of slow "
@@ -367,4 +368,6 @@ VARIANTS = [
     Variant("superstep-direct-processor-call", "src/hypergraph/runners/sync/superstep.py", replace_once("            if active:\n                dispatcher.emit(start_evt)\n\n            node_start", "            if active:\n                for p in dispatcher._processors:\n                    p.on_event(start_evt)\n\n            node_start"), {"C13.R3", "C13.R4"}),
     Variant("active-guard-writes-state", "src/hypergraph/runners/sync/superstep.py", replace_once("                if active:\n                    route_evt = build_route_decision_event(run_id, run_span_id, node, graph, new_state)\n                    if route_evt is not None:\n                        dispatcher.emit(route_evt)\n                    dispatcher.emit(build_node_end_event(run_id, node_span_id, run_span_id, node, graph, duration_ms))", "                if active:\n                    route_evt = build_route_decision_event(run_id, run_span_id, node, graph, new_state)\n                    if route_evt is not None:\n                        dispatcher.emit(route_evt)\n                    dispatcher.emit(build_node_end_event(run_id, node_span_id, run_span_id, node, graph, duration_ms))\n                    new_state.routing_decisions.pop(node.name, None)"), {"C13.R4"}),
     Variant("shutdown-outside-finally", "src/hypergraph/runners/_shared/template_sync.py", sub_once(r"(            return results\n        except Exception as e:\n            self\._emit_run_end_sync\(\n                dispatcher,\n                map_run_id.*?raise\n)        finally:\n            if _parent_span_id is None and dispatcher\.active:\n                self\._shutdown_dispatcher_sync\(dispatcher\)", r"\1        if _parent_span_id is None and dispatcher.active:\n            self._shutdown_dispatcher_sync(dispatcher)"), {"C13.R5"}),
+    Variant("span-ids-from-global-rng", "src/hypergraph/events/types.py", chain(replace_once("import uuid\n", "import random\nimport uuid\n"), replace_once("    return uuid.uuid4().hex[:16]", "    return f\"{random.getrandbits(64):016x}\"")), {"C13.R8"}),
+    Variant("twin-span-ids-from-own-generator", "src/hypergraph/events/types.py", chain(replace_once("import uuid\n", "import os\nimport uuid\n"), replace_once("    return uuid.uuid4().hex[:16]", "    return os.urandom(8).hex()")), set()),
 ]
